@@ -1840,13 +1840,13 @@ class VM:
             return result
 
         def toString(*args):
-            radix = int(to_number(args[0])) if args else 10
+            radix = 10
+            if args and args[0] is not UNDEFINED:
+                radix = to_integer_or_infinity(args[0])
             if radix < 2 or radix > 36:
-                raise JSReferenceError("toString() radix must be between 2 and 36")
-            if radix == 10:
-                if isinstance(n, float) and n.is_integer():
-                    return str(int(n))
-                return str(n)
+                raise JSRangeError("toString() radix must be between 2 and 36")
+            if radix == 10 or math.isnan(n) or math.isinf(n):
+                return to_string(n)
             # Convert to different base
             if n < 0:
                 return "-" + self._number_to_base(-n, radix)
@@ -1901,19 +1901,38 @@ class VM:
         return methods.get(method, lambda *args: UNDEFINED)
 
     def _number_to_base(self, n: float, radix: int) -> str:
-        """Convert number to string in given base."""
-        if n != int(n):
-            # For non-integers, just use base 10
-            return str(n)
-        n = int(n)
-        if n == 0:
-            return "0"
+        """Digits of the finite number n >= 0 in the given radix: the integer
+        part exactly, then as many fraction digits as are needed to tell n from
+        its neighbouring doubles (the radix-10 rule of Number::toString)."""
         digits = "0123456789abcdefghijklmnopqrstuvwxyz"
+        integer = int(n)
+        fraction = n - integer  # exact: both are doubles with the same sign
+        delta = max(0.5 * math.ulp(n), 5e-324)
+        places = []
+        while fraction >= delta:
+            fraction *= radix
+            delta *= radix
+            digit = int(fraction)
+            fraction -= digit
+            places.append(digit)
+            if fraction > 0.5 or (fraction == 0.5 and digit & 1):
+                if fraction + delta > 1:
+                    # the next neighbour is nearer to the rounded-up digits: carry
+                    while places and places[-1] == radix - 1:
+                        places.pop()
+                    if places:
+                        places[-1] += 1
+                    else:
+                        integer += 1
+                    break
         result = []
-        while n:
-            result.append(digits[n % radix])
-            n //= radix
-        return "".join(reversed(result))
+        while integer:
+            integer, digit = divmod(integer, radix)
+            result.append(digits[digit])
+        text = "".join(reversed(result)) or "0"
+        if places:
+            text += "." + "".join(digits[d] for d in places)
+        return text
 
     def _make_string_method(self, s: str, method: str) -> Any:
         """Create a bound string method."""
